@@ -431,6 +431,7 @@ def newline_shape(man):
     directly under such a test:
       counting site  =  match arm  "\n" => { .. self.line += 1; .. }
                      |  if <cond mentioning "\n" or '\n' positively: == / ends_with( / match_char(> { .. self.line += 1; .. }
+                     |  let <flag> = <x> == "\n"; .. if <flag> { .. self.line += 1; .. }      (/repo e81033c)
       allowed other uses of the literal:  != "\n" (stops BEFORE it), push_str("\n") / push('\n') (value of a literal);
       required sites: an arm in skip_whitespace and in string; a site in read_escaped_bytes (it advances over characters
       it does not look at: /repo 914ba97, finding escape_swallows_newline)."""
@@ -461,6 +462,21 @@ def newline_shape(man):
                     sites.append((owner(i), "arm", i + 2, e))
                 else:
                     problems.append("scanner.rs:%d: the newline arm of %s does not count the line" % (t.line, owner(i)))
+            elif (prev == "==" and nxt == ";" and i >= 5 and sc[i - 5].text == "let" and sc[i - 3].text == "="
+                  and sc[i - 4].kind == "id"):
+                # `let <flag> = <x> == "\n";` (/repo e81033c: the Error token is built between the test and the count):
+                # the flag must guard, later in the same function, `if <flag> { .. self.line += 1; .. }` - that block is
+                # the counting site
+                flag, fn_close = sc[i - 4].text, max([c for name, o, c in fns if o < i < c] or [len(sc) - 1])
+                q = i + 2
+                while q + 2 < fn_close and not (sc[q].text == "if" and sc[q + 1].text == flag and sc[q + 2].text == "{"):
+                    q += 1
+                if q + 2 >= fn_close:
+                    problems.append("scanner.rs:%d: %s keeps a line-break test in `%s` and never counts under it" % (t.line, owner(i), flag))
+                elif not has_incr(q + 2, match_group(sc, q + 2)):
+                    problems.append("scanner.rs:%d: %s tests `%s` (a line break) and does not count the line" % (sc[q].line, owner(i), flag))
+                else:
+                    sites.append((owner(i), "flag", q + 2, match_group(sc, q + 2)))
             elif prev == "==" or call in ("match_char", "ends_with", "starts_with", "contains"):
                 # a positive test guarding a block: the block consumes / has consumed the line break -> it must count it
                 j = i
